@@ -565,6 +565,25 @@ func (s *HASyncer) performFullSync() error {
 	// Apply full sync
 	s.receivedMu.Lock()
 	s.receivedSessions = make(map[string]*SessionState)
+
+	// A full sync replaces the table: sessions the active node no longer has
+	// (deleted while this node was not connected to the stream) must go, or
+	// they stay on the standby forever
+	inSnapshot := make(map[string]struct{}, len(msg.Sessions))
+	for i := range msg.Sessions {
+		inSnapshot[msg.Sessions[i].SessionID] = struct{}{}
+	}
+	for _, old := range s.store.GetAllSessions() {
+		if _, ok := inSnapshot[old.SessionID]; !ok {
+			if err := s.store.DeleteSession(old.SessionID); err != nil {
+				s.logger.Warn("Failed to delete stale session",
+					zap.String("session_id", old.SessionID),
+					zap.Error(err),
+				)
+			}
+		}
+	}
+
 	for i := range msg.Sessions {
 		session := msg.Sessions[i]
 		s.receivedSessions[session.SessionID] = &session
